@@ -5,6 +5,7 @@ import DendroModel.Theory.C07Perm
 import DendroModel.Theory.C17Frac
 import DendroModel.Theory.Reseed
 import DendroModel.Theory.C01Reseed
+import DendroModel.Theory.C15Build
 import Mathlib.Tactic
 /-! C07 — theorems about the executable model `Model/C07.lean` (the definitions `drv_c07` runs). -/
 
@@ -4089,5 +4090,521 @@ theorem gen_reroot_edge_bridge (s : Bool) (h nw : Nat) (l1 l2 : Option Frac) (t 
     rerootAtEdge s h nw l1 l2 t =
       rerootAtNode s nw (splitEdge h nw (C07Mid.rerootEdgeLens l1 l2).1 (C07Mid.rerootEdgeLens l1 l2).2 t) := by
   simp [rerootAtEdge, C07Mid.rerootEdgeLens]
+
+end DendroModel.C07
+
+namespace DendroModel.C07.Aux
+open DendroModel DendroModel.C07 DendroModel.Hier DendroModel.C01.Bridge
+
+/-! ### unrooted splits under child permutations -/
+
+theorem hmaskL_perm {a b : List Hier.T} (h : a.Perm b) : maskL a = maskL b := by
+  induction h with
+  | nil => rfl
+  | cons x _ ih => simp only [maskL, ih]
+  | swap x y l => simp only [maskL]; rw [← Nat.lor_assoc, ← Nat.lor_assoc, Nat.lor_comm (mask y)]
+  | trans _ _ ih1 ih2 => exact ih1.trans ih2
+
+theorem hcladesL_perm {a b : List Hier.T} (h : a.Perm b) (x : Nat) : x ∈ cladesL a ↔ x ∈ cladesL b := by
+  rw [mem_cladesL, mem_cladesL]
+  constructor
+  · rintro ⟨c, hc, hx⟩; exact ⟨c, h.mem_iff.mp hc, hx⟩
+  · rintro ⟨c, hc, hx⟩; exact ⟨c, h.mem_iff.mpr hc, hx⟩
+
+theorem goodL_perm {a b : List Hier.T} (h : a.Perm b) : GoodL a ↔ GoodL b := by
+  induction h with
+  | nil => exact Iff.rfl
+  | @cons x l1 l2 hp ih => simp only [GoodL, hmaskL_perm hp, ih]
+  | swap x y l =>
+    simp only [GoodL, maskL, and_eq_zero_iff, bits_or, Set.disjoint_union_right]
+    constructor
+    · rintro ⟨h1, h2, ⟨h3, h4⟩, h5, h6, h7, h8⟩; exact ⟨h5, h6, ⟨h3.symm, h7⟩, h1, h2, h4, h8⟩
+    · rintro ⟨h1, h2, ⟨h3, h4⟩, h5, h6, h7, h8⟩; exact ⟨h5, h6, ⟨h3.symm, h7⟩, h1, h2, h4, h8⟩
+  | trans _ _ ih1 ih2 => exact ih1.trans ih2
+
+theorem toHL_eq_map' (cs : List T) : T.toHL cs = cs.map T.toH := by
+  induction cs with
+  | nil => rfl
+  | cons c cs ih => simp [T.toHL, ih]
+
+theorem toHL_perm {a b : List T} (h : a.Perm b) : (T.toHL a).Perm (T.toHL b) := by
+  rw [toHL_eq_map', toHL_eq_map']; exact h.map _
+
+/-- the root's children permuted: same normalised split set -/
+theorem usplits_root_perm (lo : Nat) (i : Nat) (x : Option Nat) (l : Option Frac) (s : Option String) {a b : List T}
+    (h : a.Perm b) (z : Nat) : z ∈ usplits lo (T.toH (.node i x l s a)) ↔ z ∈ usplits lo (T.toH (.node i x l s b)) := by
+  by_cases ha : a = []
+  · subst ha; have := h.symm.eq_nil; subst this; exact Iff.rfl
+  · have hb : b ≠ [] := fun e => ha (by subst e; exact h.eq_nil)
+    rw [toH_node_ne ha, toH_node_ne hb]
+    simp only [usplits, List.mem_map, hmaskL_perm (toHL_perm h)]
+    constructor
+    · rintro ⟨c, hc, rfl⟩; exact ⟨c, (hcladesL_perm (toHL_perm h) c).mp hc, rfl⟩
+    · rintro ⟨c, hc, rfl⟩; exact ⟨c, (hcladesL_perm (toHL_perm h) c).mpr hc, rfl⟩
+
+/-- what a re-ordering keeps of the mask-labelled view, node by node -/
+structure HInv (t r : T) : Prop where
+  mask : Hier.mask (T.toH r) = Hier.mask (T.toH t)
+  clades : ∀ x, x ∈ Hier.clades (T.toH r) ↔ x ∈ Hier.clades (T.toH t)
+
+theorem map_hinv (f : T → T) : ∀ cs : List T, (∀ c ∈ cs, HInv c (f c)) →
+    maskL (T.toHL (cs.map f)) = maskL (T.toHL cs) ∧ ∀ x, x ∈ cladesL (T.toHL (cs.map f)) ↔ x ∈ cladesL (T.toHL cs)
+  | [], _ => ⟨rfl, fun _ => Iff.rfl⟩
+  | c :: cs, h => by
+    have hc := h c (List.mem_cons_self ..)
+    obtain ⟨m, cl⟩ := map_hinv f cs (fun d hd => h d (List.mem_cons_of_mem _ hd))
+    refine ⟨by simp only [List.map_cons, T.toHL, maskL, hc.mask, m], fun x => ?_⟩
+    simp only [List.map_cons, T.toHL, cladesL, List.mem_append, hc.clades x, cl x]
+
+theorem sorted_tree_hinv (f : T → T) (before : T → T → Bool)
+    (hf : ∀ i x l s cs, f (.node i x l s cs) = .node i x l s (sortStable before (cs.map f))) :
+    ∀ (n : Nat) (t : T), t.size ≤ n → HInv t (f t)
+  | 0, .node i x l s cs, h => by simp [T.size] at h
+  | n + 1, .node i x l s cs, h => by
+    rw [hf]
+    by_cases hcs : cs = []
+    · subst hcs; exact ⟨rfl, fun _ => Iff.rfl⟩
+    · have ih : ∀ c ∈ cs, HInv c (f c) := fun c hc =>
+        sorted_tree_hinv f before hf n c (by have := size_lt_of_mem hc; simp only [T.size] at h; omega)
+      obtain ⟨m, cl⟩ := map_hinv f cs ih
+      have hp := toHL_perm (sortStable_perm before (cs.map f))
+      have hne : sortStable before (cs.map f) ≠ [] := by
+        intro h0
+        have := (sortStable_perm before (cs.map f)).length_eq
+        rw [h0] at this; simp at this; exact hcs (List.length_eq_zero_iff.mp this.symm)
+      refine ⟨?_, fun x => ?_⟩
+      · rw [toH_node_ne hne, toH_node_ne hcs]; simp only [Hier.mask, hmaskL_perm hp, m]
+      · rw [toH_node_ne hne, toH_node_ne hcs]; simp only [Hier.clades, List.mem_cons, hmaskL_perm hp, m, hcladesL_perm hp x, cl x]
+
+
+theorem sorted_tree_usplits (f : T → T) (before : T → T → Bool)
+    (hf : ∀ i x l s cs, f (.node i x l s cs) = .node i x l s (sortStable before (cs.map f))) (t : T) (lo z : Nat) :
+    z ∈ usplits lo (T.toH (f t)) ↔ z ∈ usplits lo (T.toH t) := by
+  cases t with
+  | node i x l s cs =>
+    rw [hf]
+    by_cases hcs : cs = []
+    · subst hcs; exact Iff.rfl
+    · have ih : ∀ c ∈ cs, HInv c (f c) := fun c _ => sorted_tree_hinv f before hf c.size c (Nat.le_refl _)
+      obtain ⟨m, cl⟩ := map_hinv f cs ih
+      have hp := toHL_perm (sortStable_perm before (cs.map f))
+      have hne : sortStable before (cs.map f) ≠ [] := by
+        intro h0
+        have := (sortStable_perm before (cs.map f)).length_eq
+        rw [h0] at this; simp at this; exact hcs (List.length_eq_zero_iff.mp this.symm)
+      rw [toH_node_ne hne, toH_node_ne hcs]
+      simp only [usplits, List.mem_map, hmaskL_perm hp, m]
+      constructor
+      · rintro ⟨c, hc, rfl⟩; exact ⟨c, (cl c).mp ((hcladesL_perm hp c).mp hc), rfl⟩
+      · rintro ⟨c, hc, rfl⟩; exact ⟨c, (hcladesL_perm hp c).mpr ((cl c).mpr hc), rfl⟩
+
+end DendroModel.C07.Aux
+
+namespace DendroModel.C07
+open DendroModel DendroModel.C07.Aux DendroModel.Hier DendroModel.C01.Bridge
+
+/-- **`ladderize`, `reorder`, `randomly_rotate` keep the set of unrooted splits** — every tree, every reference mask, no hypothesis:
+    the children are only permuted, at every node. -/
+theorem ladderize_keeps_usplits (asc : Bool) (t : T) (lo : Nat) :
+    ∀ z, z ∈ usplits lo (T.toH (ladderize asc t)) ↔ z ∈ usplits lo (T.toH t) :=
+  fun z => sorted_tree_usplits (ladderize asc) _ (fun i x l s cs => by rw [ladderize, ladderizeL_eq_map]) t lo z
+
+theorem reorder_keeps_usplits (asc : Bool) (t : T) (lo : Nat) :
+    ∀ z, z ∈ usplits lo (T.toH (reorder asc t)) ↔ z ∈ usplits lo (T.toH t) :=
+  fun z => sorted_tree_usplits (reorder asc) _ (fun i x l s cs => by rw [reorder, reorderL_eq_map]) t lo z
+
+theorem rotate_keeps_usplits (rank : Nat → Nat) (t : T) (lo : Nat) :
+    ∀ z, z ∈ usplits lo (T.toH (rotate rank t)) ↔ z ∈ usplits lo (T.toH t) :=
+  fun z => sorted_tree_usplits (rotate rank) _ (fun i x l s cs => by rw [rotate, rotateL_eq_map]) t lo z
+
+example : usplits (1 <<< 0) (T.toH (ladderize false exTree)) ≠ [] := by decide
+
+end DendroModel.C07
+
+namespace DendroModel.C07
+open DendroModel DendroModel.C07.Aux DendroModel.Hier DendroModel.C01.Bridge
+
+/-- **`to_outgroup_position` keeps the set of unrooted splits**, both `suppress_unifurcations` settings, every rooting flag: the
+    inversion chain to the outgroup's parent, the move of the outgroup to the front, the basal collapse of the sister and the
+    suppression — for trees whose leaves carry distinct taxa (`GoodL`), distinct node ids, a seed with ≥ 2 children. -/
+theorem to_outgroup_keeps_usplits (flag : Option Bool) (suppress : Bool) (og : Nat) (t : T) (r : T × Option Bool) (k : Nat)
+    (h : toOutgroup flag suppress og t = some r) (hids : (idsOf t).Nodup) (h2 : 2 ≤ t.cs.length)
+    (hg : GoodL (T.toHL t.cs)) (hk : k ∈ bits (maskL (T.toHL t.cs))) :
+    ∀ z, z ∈ usplits (1 <<< k) (T.toH r.1) ↔ z ∈ usplits (1 <<< k) (T.toH t) := by
+  have hlo : bits (1 <<< k) ⊆ bits (maskL (T.toHL t.cs)) := by
+    rw [bits_shift]; exact Set.singleton_subset_iff.mpr hk
+  unfold toOutgroup at h
+  split at h
+  · cases h
+  · rename_i p hp
+    obtain ⟨m, hm, hmp, hmne⟩ := parentOf_spec og t p hp
+    have hr := invert_is_chain p t (hint_of_ids hids hm hmp hmne) h2
+    have K := reach_splitKeep hr (1 <<< k) (single_shift k) (shift_ne_zero k) hg hlo
+    have hids2 : (idsOf (invertTo p t)).Nodup := (reach_ids hr).nodup_iff.mpr hids
+    have hlen2 : 2 ≤ (invertTo p t).cs.length := reach_two hr h2
+    have Kg := K.good
+    have Km := K.maskEq
+    have Ks := K.splits
+    split at h
+    rename_i i x l s cs heq
+    rw [heq] at hids2 hlen2 Kg Km Ks
+    simp only [T.cs] at Kg Km hlen2
+    split at h
+    · cases h
+    · rename_i o ho
+      cases h
+      have hchild : (cs.map T.id).Nodup := by
+        rw [idsOf_node] at hids2
+        exact (childIds_sublist cs).nodup (List.nodup_cons.mp hids2).2
+      have P := front_perm og cs o hchild ho
+      have G' : GoodL (T.toHL (o :: cs.filter (fun c => c.id != og))) := (goodL_perm (toHL_perm P)).mpr Kg
+      have M' : maskL (T.toHL (o :: cs.filter (fun c => c.id != og))) = maskL (T.toHL t.cs) :=
+        (hmaskL_perm (toHL_perm P)).trans Km
+      have S2 : ∀ z, z ∈ usplits (1 <<< k) (T.toH (.node i x l s (o :: cs.filter (fun c => c.id != og)))) ↔
+          z ∈ usplits (1 <<< k) (T.toH t) := fun z => (usplits_root_perm _ i x l s P z).trans (Ks z)
+      have L2 : 2 ≤ (T.node i x l s (o :: cs.filter (fun c => c.id != og))).cs.length := by
+        simp only [T.cs]; rw [P.length_eq]; exact hlen2
+      have C : (∀ z, z ∈ usplits (1 <<< k) (T.toH (if sisterCollapses (unrootedFlag flag) (o :: cs.filter (fun c => c.id != og)) = true
+            then collapseBasal (.node i x l s (o :: cs.filter (fun c => c.id != og)))
+            else .node i x l s (o :: cs.filter (fun c => c.id != og)))) ↔ z ∈ usplits (1 <<< k) (T.toH t)) ∧
+          2 ≤ (if sisterCollapses (unrootedFlag flag) (o :: cs.filter (fun c => c.id != og)) = true
+            then collapseBasal (.node i x l s (o :: cs.filter (fun c => c.id != og)))
+            else .node i x l s (o :: cs.filter (fun c => c.id != og))).cs.length := by
+        split
+        · have c := collapse_usplits (1 <<< k) (.node i x l s (o :: cs.filter (fun c => c.id != og))) G'
+            (by simp only [T.cs]; rw [M']; exact hlo) (single_shift k) (shift_ne_zero k)
+          exact ⟨fun z => (c.1 z).trans (S2 z), c.2 L2⟩
+        · exact ⟨S2, L2⟩
+      simp only
+      generalize (if sisterCollapses (unrootedFlag flag) (o :: cs.filter (fun c => c.id != og)) = true
+            then collapseBasal (.node i x l s (o :: cs.filter (fun c => c.id != og)))
+            else .node i x l s (o :: cs.filter (fun c => c.id != og))) = t3 at C ⊢
+      cases suppress
+      · simpa using C.1
+      · intro z
+        simp only [if_true]
+        rw [sup_usplits _ t3 C.2 z]
+        exact C.1 z
+
+/-- **`randomly_reorient` keeps the set of unrooted splits**, whichever node and shuffles the rng produced -/
+theorem reorient_keeps_usplits (flag : Option Bool) (pick : Nat) (rank : Nat → Nat) (t : T) (r : T × Option Bool) (k : Nat)
+    (h : reorient flag pick rank t = some r) (hids : (idsOf t).Nodup) (h2 : 2 ≤ t.cs.length)
+    (hg : GoodL (T.toHL t.cs)) (hk : k ∈ bits (maskL (T.toHL t.cs))) :
+    ∀ z, z ∈ usplits (1 <<< k) (T.toH r.1) ↔ z ∈ usplits (1 <<< k) (T.toH t) := by
+  unfold reorient at h
+  split at h
+  · cases h
+  · rename_i n hfind
+    obtain ⟨hnmem, hnid⟩ := find_mem pick t n hfind
+    split at h
+    · cases ho : toOutgroup flag true pick t with
+      | none => simp [ho] at h
+      | some q =>
+        simp only [ho, Option.map_some, Option.some.injEq] at h
+        subst h
+        intro z
+        exact (rotate_keeps_usplits rank q.1 _ z).trans (to_outgroup_keeps_usplits flag true pick t q k ho hids h2 hg hk z)
+    · rename_i hcond
+      simp only [Option.some.injEq] at h
+      subst h
+      have hint : ∀ m ∈ t.nodes, m.id = pick → m.cs ≠ [] := by
+        by_cases hne : n.cs = []
+        · have hp : pick = t.id := by
+            by_contra hp
+            apply hcond
+            simp [hne, hp]
+          have htne : t.cs ≠ [] := by intro e; rw [e] at h2; simp at h2
+          exact hint_of_ids hids (mem_nodes_self t) hp.symm htne
+        · exact hint_of_ids hids hnmem hnid hne
+      intro z
+      exact (rotate_keeps_usplits rank _ _ z).trans (reseed_keeps_usplits flag true true pick t k hint h2 hg hk z)
+
+example : ∃ r, toOutgroup (some false) true 4 exTree = some r ∧ GoodL (T.toHL exTree.cs) ∧ (idsOf exTree).Nodup := by
+  refine ⟨_, rfl, by simp [exTree, T.cs, T.toHL, T.toH, GoodL, Good, mask, maskL], by decide⟩
+
+end DendroModel.C07
+
+namespace DendroModel.C07.Aux
+open DendroModel DendroModel.C07 DendroModel.Hier DendroModel.C01.Bridge
+
+/-! ### unrooted splits under the insertion of a node inside an edge -/
+
+/-- the mask-labelled view of a node's child list before/after an operation -/
+structure SplitH (cs cs' : List T) : Prop where
+  mask : maskL (T.toHL cs') = maskL (T.toHL cs)
+  clades : ∀ x, x ∈ cladesL (T.toHL cs') ↔ x ∈ cladesL (T.toHL cs)
+  good : GoodL (T.toHL cs) → GoodL (T.toHL cs')
+  nil : cs' = [] ↔ cs = []
+
+theorem splitH_node {i i' : Nat} {x x' : Option Nat} {l l' : Option Frac} {s s' : Option String} {cs cs' : List T}
+    (hne : cs ≠ []) (S : SplitH cs cs') :
+    HInv (.node i x l s cs) (.node i' x' l' s' cs') ∧
+    (Good (T.toH (.node i x l s cs)) → Good (T.toH (.node i' x' l' s' cs'))) := by
+  have hne' : cs' ≠ [] := fun e => hne (S.nil.mp e)
+  refine ⟨⟨by rw [toH_node_ne hne, toH_node_ne hne']; simp only [Hier.mask, S.mask],
+    fun z => by rw [toH_node_ne hne, toH_node_ne hne']; simp only [Hier.clades, List.mem_cons, S.mask, S.clades z]⟩, ?_⟩
+  rw [toH_node_ne hne, toH_node_ne hne']
+  simp only [Good]; exact S.good
+
+theorem goodL_map (f : T → T) : ∀ cs : List T,
+    (∀ d ∈ cs, Hier.mask (T.toH (f d)) = Hier.mask (T.toH d) ∧ (Good (T.toH d) → Good (T.toH (f d)))) →
+    GoodL (T.toHL cs) → GoodL (T.toHL (cs.map f)) ∧ maskL (T.toHL (cs.map f)) = maskL (T.toHL cs)
+  | [], _, hg => ⟨hg, rfl⟩
+  | c :: cs, h, hg => by
+    simp only [T.toHL, GoodL] at hg
+    obtain ⟨g1, g2, g3, g4⟩ := hg
+    obtain ⟨hm, hgd⟩ := h c (List.mem_cons_self ..)
+    obtain ⟨ih1, ih2⟩ := goodL_map f cs (fun d hd => h d (List.mem_cons_of_mem _ hd)) g4
+    simp only [List.map_cons, T.toHL, GoodL, maskL, hm, ih2]
+    exact ⟨⟨hgd g1, g2, g3, ih1⟩, trivial⟩
+
+theorem splitEdge_H (h nw : Nat) (lT lH : Option Frac) : ∀ (k : Nat) (t : T), t.size ≤ k → (idsOf t).Nodup →
+    SplitH t.cs (splitEdge h nw lT lH t).cs
+  | 0, .node i x l s cs, hk, _ => by simp [T.size] at hk
+  | k + 1, .node i x l s cs, hk, hids => by
+    rw [idsOf_node] at hids
+    have hidsL := (List.nodup_cons.mp hids).2
+    rw [splitEdge]
+    split
+    · rename_i c hc
+      have P := front_perm h cs c ((childIds_sublist cs).nodup hidsL) hc
+      have Q : (cs.filter (fun c => c.id != h) ++ [T.node nw none lT none [c.withLen lH]]).Perm
+          (T.node nw none lT none [c.withLen lH] :: cs.filter (fun c => c.id != h)) := List.perm_append_comm
+      have hw : T.toH (T.node nw none lT none [c.withLen lH]) = .node [T.toH c] := by
+        simp [T.toH, T.toHL, withLen_toH']
+      have hcs : cs ≠ [] := by intro e; subst e; simp at hc
+      simp only [T.cs]
+      refine ⟨?_, ?_, ?_, ?_⟩
+      · rw [hmaskL_perm (toHL_perm Q), ← hmaskL_perm (toHL_perm P)]
+        simp only [T.toHL, maskL, hw, Hier.mask, Nat.or_zero]
+      · intro z
+        rw [hcladesL_perm (toHL_perm Q), ← hcladesL_perm (toHL_perm P)]
+        simp only [T.toHL, cladesL, hw, Hier.clades, maskL, Nat.or_zero, List.append_nil, List.mem_append, List.mem_cons]
+        constructor
+        · rintro ((rfl | h1) | h2)
+          · exact Or.inl (mask_mem_clades _)
+          · exact Or.inl h1
+          · exact Or.inr h2
+        · rintro (h1 | h2)
+          · exact Or.inl (Or.inr h1)
+          · exact Or.inr h2
+      · intro hg
+        rw [goodL_perm (toHL_perm Q)]
+        rw [← goodL_perm (toHL_perm P)] at hg
+        simp only [T.toHL, GoodL, hw, Good, Hier.mask, maskL, Nat.or_zero] at hg ⊢
+        obtain ⟨g1, g2, g3, g4⟩ := hg
+        exact ⟨⟨g1, g2, by simp, trivial⟩, g2, g3, g4⟩
+      · simp [hcs]
+    · rw [splitEdgeL_eq_map]
+      simp only [T.cs]
+      have ih : ∀ d ∈ cs, HInv d (splitEdge h nw lT lH d) ∧ (Good (T.toH d) → Good (T.toH (splitEdge h nw lT lH d))) := by
+        intro d hd
+        have S := splitEdge_H h nw lT lH k d (by have := size_lt_of_mem hd; simp only [T.size] at hk; omega)
+          (idsOf_child_nodup hidsL hd)
+        cases d with
+        | node j y ld sd ds =>
+          by_cases hds : ds = []
+          · subst hds
+            have : splitEdge h nw lT lH (T.node j y ld sd []) = T.node j y ld sd [] := by
+              simp [splitEdge, splitEdgeL]
+            rw [this]; exact ⟨⟨rfl, fun _ => Iff.rfl⟩, id⟩
+          · cases hu : splitEdge h nw lT lH (T.node j y ld sd ds) with
+            | node j' y' l' s' ds' =>
+              rw [hu] at S
+              exact splitH_node hds S
+      obtain ⟨m, cl⟩ := map_hinv _ cs (fun d hd => (ih d hd).1)
+      refine ⟨m, cl, fun hg => (goodL_map _ cs (fun d hd => ⟨(ih d hd).1.mask, (ih d hd).2⟩) hg).1, by simp⟩
+
+end DendroModel.C07.Aux
+
+namespace DendroModel.C07
+open DendroModel DendroModel.C07.Aux DendroModel.Hier DendroModel.C01.Bridge
+
+/-- **`reroot_at_edge` keeps the set of unrooted splits** (any two lengths, both `suppress_unifurcations` settings): inserting a
+    node inside an edge adds no split, then the inversion chain and the suppression keep them — trees whose leaves carry
+    distinct taxa (`GoodL`), distinct node ids, `nw` fresh, the head has a parent, seed with ≥ 2 children, well-formed fractions. -/
+theorem reroot_at_edge_keeps_usplits (s : Bool) (h nw : Nat) (l1 l2 : Option Frac) (t : T) (k : Nat)
+    (hids : (idsOf t).Nodup) (hfresh : nw ∉ idsOf t) (h2 : 2 ≤ t.cs.length) (hwf : LenWF t) (hl1 : OWF l1) (hl2 : OWF l2)
+    (hg : GoodL (T.toHL t.cs)) (hk : k ∈ bits (maskL (T.toHL t.cs))) :
+    ∀ z, z ∈ usplits (1 <<< k) (T.toH (rerootAtEdge s h nw l1 l2 t).1) ↔ z ∈ usplits (1 <<< k) (T.toH t) := by
+  have S := splitEdge_H h nw l1 l2 t.size t (Nat.le_refl _) hids
+  have B := splitEdge_basic h nw l1 l2 hl1 hl2 t.size t (Nat.le_refl _) hids hwf
+  have Fr := splitEdge_fresh h nw l1 l2 t.size t (Nat.le_refl _) hfresh
+  have hintu : ∀ n ∈ (splitEdge h nw l1 l2 t).nodes, n.id = nw → n.cs ≠ [] := by
+    intro n hn hid
+    obtain ⟨c', _, _, e⟩ := Fr.2 n hn hid
+    rw [e]; simp [T.cs]
+  have h2u : 2 ≤ (splitEdge h nw l1 l2 t).cs.length := by rw [B.2]; exact h2
+  have R := reroot_at_node_keeps_usplits s nw (splitEdge h nw l1 l2 t) k hintu h2u (S.good hg) (by rw [S.mask]; exact hk)
+  intro z
+  have hne : t.cs ≠ [] := by intro e; rw [e] at h2; simp at h2
+  have hne' : (splitEdge h nw l1 l2 t).cs ≠ [] := fun e => hne (S.nil.mp e)
+  refine (R z).trans ?_
+  cases t with
+  | node i x l st cs =>
+    cases hu : splitEdge h nw l1 l2 (T.node i x l st cs) with
+    | node i' x' l' s' cs' =>
+      rw [hu] at S hne'
+      simp only [T.cs] at S hne hne'
+      rw [toH_node_ne hne, toH_node_ne hne']
+      simp only [usplits, List.mem_map, S.mask]
+      constructor
+      · rintro ⟨c, hc, rfl⟩; exact ⟨c, (S.clades c).mp hc, rfl⟩
+      · rintro ⟨c, hc, rfl⟩; exact ⟨c, (S.clades c).mpr hc, rfl⟩
+
+/-- **`reroot_at_midpoint` keeps the set of unrooted splits**, both branches (midpoint on a node: the inversion chain; inside an
+    edge: `reroot_at_edge` with the two lengths of the walk), both `suppress_unifurcations` settings. -/
+theorem reroot_at_midpoint_keeps_usplits (s : Bool) (a b nw : Nat) (t : T) (r : T × Option Bool) (k : Nat)
+    (h : rerootAtMidpoint s a b nw t = some r)
+    (hids : (idsOf t).Nodup) (hfresh : nw ∉ idsOf t) (h2 : 2 ≤ t.cs.length) (hwf : LenWF t)
+    (hg : GoodL (T.toHL t.cs)) (hk : k ∈ bits (maskL (T.toHL t.cs))) :
+    ∀ z, z ∈ usplits (1 <<< k) (T.toH r.1) ↔ z ∈ usplits (1 <<< k) (T.toH t) := by
+  unfold rerootAtMidpoint at h
+  split at h
+  · cases h
+  · rename_i nd hmid
+    cases h
+    obtain ⟨m, hm, hmid', hmne⟩ := midpointOf_node_internal a b t nd (by intro e; rw [e] at h2; simp at h2) hmid
+    exact reseed_keeps_usplits none false s nd t k (hint_of_ids hids hm hmid' hmne) h2 hg hk
+  · rename_i hd x hmid
+    split at h
+    · cases h
+    · rename_i hn hfind
+      cases h
+      have hx : x.WF := midpointOf_edge_wf a b t hd x hmid
+      exact reroot_at_edge_keeps_usplits s hd nw (some (lenOr0 hn.len - x)) (some x) t k hids hfresh h2 hwf
+        (fun f hf => by cases hf; exact Frac.sub_wf _ _) (fun f hf => by cases hf; exact hx) hg hk
+
+example : GoodL (T.toHL exTree.cs) ∧ 5 ∉ idsOf exTree ∧ (idsOf exTree).Nodup ∧
+    usplits (1 <<< 0) (T.toH (rerootAtEdge true 4 5 (some ⟨1, 2⟩) (some ⟨3, 2⟩) exTree).1) ≠ [] := by
+  refine ⟨by simp [exTree, T.cs, T.toHL, T.toH, GoodL, Good, mask, maskL], by decide, by decide, by decide⟩
+
+end DendroModel.C07
+
+namespace DendroModel.C07.Aux
+open DendroModel DendroModel.C07
+
+/-! ### every protocol tree satisfies the standing hypotheses: well-formed fractions, distinct node ids -/
+
+theorem parse_den (s : String) (a : Frac) (h : Frac.parse s = some a) : a.den ≠ 0 := by
+  unfold Frac.parse at h
+  split at h
+  · rename_i p _
+    cases hp : p.toInt? with
+    | none => simp [hp] at h
+    | some v => simp [hp] at h; subst h; simp [Frac.ofInt]
+  · rename_i p q _
+    cases hp : p.toInt? with
+    | none => simp [hp] at h
+    | some v =>
+      cases hq : q.toNat? with
+      | none => simp [hp, hq] at h
+      | some w =>
+        simp only [hp, hq] at h
+        split at h
+        · cases h
+        · simp at h; subst h; exact Frac.mk'_wf _ _
+  · cases h
+
+theorem parseOLen_owf (s : String) (l : Option Frac) (h : parseOLen s = some l) : OWF l := by
+  unfold parseOLen at h
+  split at h
+  · simp at h; subst h; intro f hf; cases hf
+  · cases hp : Frac.parse s with
+    | none => simp [hp] at h
+    | some a => simp [hp] at h; subst h; intro f hf; cases hf; exact parse_den s a hp
+
+theorem mapM_owf : ∀ (ss : List String) (ls : List (Option Frac)), ss.mapM parseOLen = some ls → ∀ l ∈ ls, OWF l
+  | [], ls, h => by simp at h; subst h; simp
+  | s :: ss, ls, h => by
+      simp only [List.mapM_cons] at h
+      cases h1 : parseOLen s with
+      | none => simp [h1] at h
+      | some l =>
+        cases h2 : ss.mapM parseOLen with
+        | none => simp [h1, h2] at h
+        | some ls' =>
+          simp [h1, h2] at h; subst h
+          intro l' hl'
+          rcases List.mem_cons.mp hl' with rfl | hl'
+          · exact parseOLen_owf s _ h1
+          · exact mapM_owf ss ls' h2 l' hl'
+
+theorem getElem!_owf (ls : List (Option Frac)) (h : ∀ l ∈ ls, OWF l) (i : Nat) : OWF (ls.toArray[i]!) := by
+  by_cases hi : i < ls.length
+  · have : ls.toArray[i]! = ls[i] := by simp [hi]
+    rw [this]; exact h _ (List.getElem_mem hi)
+  · have : ls.toArray[i]! = none := by simp [hi]; rfl
+    rw [this]; intro f hf; cases hf
+
+theorem buildTree_lenWF (par : Array Int) (tax : Array (Option Nat)) (lens : Array (Option Frac)) (labs : Array (Option String))
+    (h : ∀ i : Nat, OWF (lens[i]!)) : ∀ (fuel i : Nat), LenWF (buildTree fuel par tax lens labs i)
+  | 0, i => by
+      intro n hn f hf
+      simp [buildTree, T.nodes, T.nodesL] at hn; subst hn; simp [T.len] at hf
+  | f + 1, i => by
+      intro n hn g hg
+      simp only [buildTree, T.nodes, List.mem_cons] at hn
+      rcases hn with rfl | hn
+      · exact h i g (by simpa [T.len] using hg)
+      · obtain ⟨c, hc, hnc⟩ := mem_nodesL.mp hn
+        obtain ⟨k, _, rfl⟩ := List.mem_map.mp hc
+        exact buildTree_lenWF par tax lens labs h f k n hnc g hg
+
+theorem parseTree_lenWF' (toks : List String) (t : T) (rest : List String) (h : parseTree toks = some (t, rest)) : LenWF t := by
+  unfold parseTree at h
+  split at h
+  · cases h
+  · rename_i n rest0
+    split at h
+    · cases h
+    · rename_i n'
+      split at h
+      · cases h
+      · simp only at h
+        split at h
+        · rename_i ps xs ls ss hps hxs hls hss
+          split at h
+          · cases h
+          · simp only [Option.some.injEq, Prod.mk.injEq] at h
+            rw [← h.1]
+            exact buildTree_lenWF _ _ _ _ (getElem!_owf ls (mapM_owf _ ls hls)) _ _
+        · cases h
+
+end DendroModel.C07.Aux
+
+namespace DendroModel.C07
+open DendroModel DendroModel.C07.Aux
+
+/-- **every tree the protocol parser returns has well-formed fractions** (the `LenWF` hypothesis of the invariance theorems) -/
+theorem parseTree_lenWF (toks : List String) (t : T) (rest : List String) (h : parseTree toks = some (t, rest)) : LenWF t :=
+  parseTree_lenWF' toks t rest h
+
+/-- **every tree the protocol parser returns has pairwise distinct node ids** (the `(idsOf t).Nodup` hypothesis), by the C15
+    analysis of `buildTree` (no node is reached twice from an entry whose parent is -1) -/
+theorem parseTree_ids_nodup (toks : List String) (t : T) (rest : List String) (h : parseTree toks = some (t, rest)) :
+    (idsOf t).Nodup := by
+  obtain ⟨f, par, tax, lens, labs, r, _, rfl, hr⟩ := C15.BuildAux.parseTree_build toks t rest h
+  exact C15.BuildAux.ids_nodup par tax lens labs f r (C15.BuildAux.acyc_root par r hr)
+
+/-- the invariance theorems for driver inputs, with the two standing hypotheses discharged: e.g. the default `reseed_at` on any
+    parsed tree with a non-unary seed and an internal target -/
+theorem reseed_invariant_parsed (toks : List String) (t : T) (rest : List String) (h : parseTree toks = some (t, rest))
+    (flag : Option Bool) (collapse suppress : Bool) (tgt : Nat)
+    (hint : ∀ n ∈ t.nodes, n.id = tgt → n.cs ≠ []) (h2 : 2 ≤ t.cs.length) :
+    Keeps t (reseedAt flag collapse suppress tgt t).1 :=
+  reseed_invariant_full flag collapse suppress tgt t hint h2 (parseTree_lenWF toks t rest h)
+    (leafIds_nodup_of_ids (parseTree_ids_nodup toks t rest h))
+
+/-- midpoint rooting of any parsed tree: both leaves of the pair end up at half their distance -/
+theorem midpoint_equidistant_parsed (toks : List String) (t : T) (rest : List String) (h : parseTree toks = some (t, rest))
+    (s : Bool) (a b nw : Nat) (r : T × Option Bool) (hr : rerootAtMidpoint s a b nw t = some r)
+    (hfresh : nw ∉ idsOf t) (h2 : 2 ≤ t.cs.length) (ha : a ∈ leafIds t) (hb : b ∈ leafIds t) (hab : a ≠ b) :
+    ∃ D, pathLen t a b = some D ∧ rd r.1 a = some (D / 2) ∧ rd r.1 b = some (D / 2) :=
+  midpoint_equidistant s a b nw t r hr (parseTree_ids_nodup toks t rest h) hfresh h2 (parseTree_lenWF toks t rest h) ha hb hab
+
+/-- the hypothesis is what every successful `parseTree` of a driver line provides (`drv_c07` refuses all other lines) -/
+example (toks : List String) (t : T) (h : parseTree toks = some (t, [])) : LenWF t ∧ (idsOf t).Nodup :=
+  ⟨parseTree_lenWF toks t [] h, parseTree_ids_nodup toks t [] h⟩
 
 end DendroModel.C07
